@@ -258,6 +258,19 @@ def run_program(case, b):
                     # unit rounding again: redo in metres if the division moved the frame beyond the chopper
                     if dist_m(seq[-1].distance) > min(b.spec[i][0] for i in ops[k + 1]["choppers"]):
                         seq = FrameSequenceDropLast(seq).propagate_to(sc.scalar(d, unit="m"))
+            if k + 1 < len(ops) and ops[k + 1]["op"] == "chop":
+                # ... and the same question asked the way the package asks it: it converts the chopper's
+                # distance into the unit of the frame (cm -> mm) and refuses a chopper upstream of the
+                # frame.  A frame at 8008.531993503471 mm and a chopper at 800.8531993503471 cm are the
+                # same place, but the conversion lands one ulp below (thorough run, seed 4): then the
+                # frame is put at the chopper's own distance variable instead.
+                fd = seq[-1].distance
+                nxt = [b.choppers[i] for i in ops[k + 1]["choppers"]]
+                behind = [c for c in nxt
+                          if (c.distance.to(unit=fd.unit, dtype="float64") < fd.to(dtype="float64")).value]
+                if behind:
+                    first = min(behind, key=lambda c: dist_m(c.distance))
+                    seq = FrameSequenceDropLast(seq).propagate_to(first.distance.to(dtype="float64"))
     return seq
 
 
